@@ -132,8 +132,8 @@ def decide(pid, P, tier, seed, replay, scratch, t0):
                     continue
                 if "case" not in rp:
                     continue
-            st, mm = engine.run_domain(scratch, harness_bin, driver_bin, name, seed, run_tier, replay=replay, extra_env=env_extra,
-                                       timeout=dom.get("timeout", 3000))
+            st, mm = engine.run_domain(scratch, harness_bin, driver_bin, name, seed, run_tier, replay=replay,
+                                       extra_env=dict(env_extra, **dom.get("env", {})), timeout=dom.get("timeout", 3000))
             all_stats.append(st)
             mismatches += mm
 
